@@ -117,3 +117,41 @@ func H12e_OptionsFrame() {
 	vp.Assert("options-getter-and-roots-unchanged", vp.And(opts.Getter == before.Getter, opts.TrustedRoots == before.TrustedRoots))
 	vp.Assert("options-time-set-unchanged", opts.Now == before.Now)
 }
+
+// H12f: an options value whose EXPORTED fields the caller changes between two verifications
+// behaves like a fresh value with the new settings (nothing derived from the old settings survives).
+func H12f_ReconfiguredOptions() {
+	w := mkCollateralWorld(1, 1, 0, 1, 1, 0)
+	quote := mkQuote(w.pki, 0)
+	now := symTimeSet("t")
+	// first use: some configuration
+	shared := freshOpts(w, vp.Choose("firstGetCollateral", 2) == 1, false, now)
+	if vp.Choose("firstRootsEmbedded", 2) == 1 {
+		shared.TrustedRoots = nil
+	}
+	if TdxQuote(quote, shared) != nil {
+		// histories that start with a rejected verification are covered by H12d's arbitrary pre-state
+		return
+	}
+	n1 := len(w.getter.urls)
+	// the caller reconfigures the same value
+	coll := vp.Choose("secondGetCollateral", 2) == 1
+	rev := vp.Choose("secondCheckRevocations", 2) == 1
+	shared.GetCollateral, shared.CheckRevocations = coll, rev
+	shared.TrustedRoots = w.pool
+	if vp.Choose("secondRootsEmbedded", 2) == 1 {
+		shared.TrustedRoots = nil
+	}
+	errShared := TdxQuote(quote, shared)
+	n2 := len(w.getter.urls)
+	fresh := &Options{GetCollateral: coll, CheckRevocations: rev, Getter: w.getter, TrustedRoots: shared.TrustedRoots, Now: now}
+	errFresh := TdxQuote(quote, fresh)
+	n3 := len(w.getter.urls)
+	vp.Reach("accept", errFresh == nil)
+	vp.Reach("reject", errFresh != nil)
+	vp.Assert("reconfigured-options-give-the-verdict-of-fresh-options", (errShared == nil) == (errFresh == nil))
+	vp.Assert("reconfigured-options-make-the-requests-of-fresh-options", n2-n1 == n3-n2)
+	if rev && !coll {
+		vp.Assert("revocation-without-collateral-fails-also-on-a-used-options-value", errShared != nil)
+	}
+}
